@@ -44,6 +44,11 @@ type GraphNode struct {
 	SubjectAndKey           *x509.SubjectAndKey
 	childrenBySubjectAndKey map[subjectAndKeyFingerprint]*GraphEdgeSet
 	parentsBySubjectAndKey  map[subjectAndKeyFingerprint]*GraphEdgeSet
+
+	// parentsWithoutIssuer holds the edges into this node whose issuer is not
+	// (yet) in the graph. They are not in parentsBySubjectAndKey, which is
+	// indexed by issuer.
+	parentsWithoutIssuer *GraphEdgeSet
 }
 
 // A GraphEdge is a certificate that joins two SubjectAndKeys.
@@ -122,6 +127,7 @@ func (g *Graph) AddCert(c *x509.Certificate) {
 		node.SubjectAndKey = sk
 		node.childrenBySubjectAndKey = make(map[subjectAndKeyFingerprint]*GraphEdgeSet)
 		node.parentsBySubjectAndKey = make(map[subjectAndKeyFingerprint]*GraphEdgeSet)
+		node.parentsWithoutIssuer = NewGraphEdgeSet()
 		g.nodes = append(g.nodes, node)
 		g.nodesBySubjectAndKey[skfp] = node
 
@@ -182,6 +188,7 @@ func (g *Graph) AddCert(c *x509.Certificate) {
 			g.missingIssuerNode[rawIssuer] = missingIssuerSet
 		}
 		missingIssuerSet.addOrPanic(edge)
+		node.parentsWithoutIssuer.addOrPanic(edge)
 	}
 
 	// If we added a new node, check if it issued an existing dangling edge.
@@ -221,6 +228,7 @@ func (g *Graph) AddCert(c *x509.Certificate) {
 			candidateEdge.child.parentsBySubjectAndKey[parentSkpf] = parentSet
 		}
 		parentSet.addOrPanic(candidateEdge)
+		candidateEdge.child.parentsWithoutIssuer.removeEdge(candidateCert.FingerprintSHA256)
 
 		// Record the edge as fixed so we can remove it from the missingIssuerNode
 		// map.
